@@ -249,7 +249,7 @@ def L3(ctx):
             ctx.missing("L3", fk)
             continue
         n += 1
-        ea = EventAnalysis(prog, path_matcher({"rt": rt_acq, "std": std_acq}), stop=lambda i: prog.insts[i].key != fk).solve([root])
+        ea = EventAnalysis(prog, path_matcher({"rt": rt_acq, "std": std_acq}), stop=lambda i: not prog.insts[i].key.startswith("sync::")).solve([root])
         v = ea.must_before(root, "rt", "std")
         has = "std" in ea.may.get(root, ()) and "rt" in ea.may.get(root, ())
         if has and not v:
